@@ -972,6 +972,12 @@ func mergeFreeGuard(c *Ctx, f *ssa.Function, store ssa.Instruction, fBase *types
 			if !ok {
 				continue
 			}
+			// the per-segment test may live in a helper called on the loop's element: `if segmentMayHaveMergeOps(seg) { return true }`
+			if call, isCall := iff.Cond.(*ssa.Call); isCall && inLoopOverSegments(c, g, b) {
+				if h := call.Call.StaticCallee(); h != nil && h != g && h.Pkg == c.Moss && reportsMergeCount(h, fTotMerge) && leadsToReturnTrue(b.Succs[0]) {
+					reports = true
+				}
+			}
 			// find a comparison of totOperationMerge with 0 somewhere in the condition (also behind `!ok || x > 0` phis)
 			var conds []ssa.Value
 			conds = append(conds, iff.Cond)
@@ -1141,4 +1147,71 @@ func inLoopOverSegments(c *Ctx, g *ssa.Function, b *ssa.BasicBlock) bool {
 		})
 	})
 	return ok
+}
+
+// reportsMergeCount: bool helper h answers "this segment holds merge operations": a return value that is (or a return
+// of true behind) a comparison totOperationMerge > 0 / != 0.
+func reportsMergeCount(h *ssa.Function, fTotMerge *types.Var) bool {
+	if h.Blocks == nil || h.Signature.Results().Len() != 1 {
+		return false
+	}
+	isPosCmp := func(v ssa.Value) (*ssa.BinOp, bool) {
+		bo, ok := v.(*ssa.BinOp)
+		if !ok {
+			return nil, false
+		}
+		op := bo.Op
+		var other ssa.Value
+		if fv, _ := loadedField(bo.X); fv == fTotMerge {
+			other = bo.Y
+		} else if fv, _ := loadedField(bo.Y); fv == fTotMerge {
+			other = bo.X
+			op = flipCmp(op)
+		} else {
+			return nil, false
+		}
+		k, isK := constInt(other)
+		return bo, isK && k == 0 && (op == token.GTR || op == token.NEQ)
+	}
+	found := false
+	eachInstr(h, func(i ssa.Instruction) {
+		switch x := i.(type) {
+		case *ssa.Return:
+			if len(x.Results) == 1 {
+				for _, og := range origins(x.Results[0]) {
+					if _, ok := isPosCmp(og); ok {
+						found = true
+					}
+				}
+			}
+		case *ssa.If:
+			if _, ok := isPosCmp(x.Cond); ok && leadsToReturnTrue(x.Block().Succs[0]) {
+				found = true
+			}
+		}
+	})
+	return found
+}
+
+// leadsToReturnTrue: from blk, through unconditional jumps only, a `return true` is reached.
+func leadsToReturnTrue(blk *ssa.BasicBlock) bool {
+	for n := 0; n < 4 && blk != nil; n++ {
+		last := blk.Instrs[len(blk.Instrs)-1]
+		if r, isR := last.(*ssa.Return); isR {
+			if len(r.Results) == 1 {
+				for _, og := range origins(r.Results[0]) {
+					if v, isC := constBool(og); isC && v {
+						return true
+					}
+				}
+			}
+			return false
+		}
+		if _, isJ := last.(*ssa.Jump); isJ {
+			blk = blk.Succs[0]
+			continue
+		}
+		return false
+	}
+	return false
 }
